@@ -10,6 +10,9 @@ carriers; invalid values / unparsable files => exit 2.
 from __future__ import annotations
 
 import json
+import os
+
+import yaml
 
 from .. import runner
 from ..gen import configs, staircase, triggers
@@ -71,6 +74,42 @@ class Plan:
         return len(self.jobs) - 1
 
 
+def root_marker_job(arg):
+    carrier, target, cwd_rel = arg
+    base = runner.new_dir("m")
+    root = os.path.join(base, "proj")  # no .git anywhere above: the configuration file itself has to mark the project root
+    cfg = {"nesting": {"max_nesting_depth": 1}}
+    files = {"pkg/deep/n.py": "def f(a, b):\n    if a:\n        if b:\n            return 1\n    return 0\n"}
+    if carrier == "yaml":
+        files[".thailint.yaml"] = yaml.safe_dump(cfg)
+    elif carrier == "json":
+        files[".thailint.json"] = json.dumps(cfg)
+    else:
+        files["pyproject.toml"] = configs.to_toml(cfg)
+    runner.write_tree(root, files, git_marker=False)
+    r = runner.cli(["nesting", "--format", "json", target], os.path.join(root, cwd_rel))
+    vs = r.violations()
+    return {"exit": r.exit, "n": None if vs is None else len(vs), "err": r.err[-200:]}
+
+
+def run_root_markers(ctx):
+    """Each documented configuration file marks the project root on its own (no .git): the same setting, found from a sub-directory target."""
+    jobs = [(carrier, target, cwd) for carrier in ("yaml", "json", "pyproject") for (target, cwd) in (("pkg/deep/n.py", ""), ("pkg", ""), (".", ""), ("n.py", "pkg/deep"), (".", "pkg"))]
+    outs = runner.pmap(root_marker_job, jobs, timeout=300)
+    ref = {}
+    for (carrier, target, cwd), o in zip(jobs, outs):
+        if not o.get("ok"):
+            ctx.inconclusive_if(True, "root-marker job failed in harness: %s" % str(o)[:200])
+            continue
+        ctx.evaluations += 1
+        ctx.count("root_marker_cases")
+        ctx.nontrivial(["root-marker", carrier, target, cwd])
+        v = o["value"]
+        if v["n"] != 1 or v["exit"] != 1:
+            ctx.discrepancy("config-not-found-from-subdirectory:%s" % carrier, "project without .git, nesting.max_nesting_depth=1 in the %s carrier, `thailint nesting %s` from <root>/%s: exit %s, %s violation(s) (expected 1: the setting is in effect)" % (
+                carrier, target, cwd, v["exit"], v["n"]), {"argv": ["nesting", "--format", "json", target], "cwd": cwd, "carrier": carrier}, {})
+
+
 def run(ctx):
     ctx.rule = ("case = (command, setting, value, carrier, key spelling) on the staircase + trigger project; distinct non-trivial = every such tuple whose "
                 "reference output (same setting through .thailint.yaml with hyphens) differs from the default-configuration output, plus every enabled:false / "
@@ -78,6 +117,7 @@ def run(ctx):
     ctx.assumptions = ["the staircase project contains constructs on both sides of every swept value", "carrier equivalence is relational (no absolute oracle needed)",
                        "documented section names per docs/<linter>-linter.md; 'invalid' values are those the linter's own validation rejects through .thailint.yaml"]
     rng = ctx.rng()
+    run_root_markers(ctx)
     stair = staircase.files()
     trig = {k: v for k, v in triggers.files("g").items() if k != ".thailint.yaml"}
     proj = dict(stair, **trig)
